@@ -656,6 +656,10 @@ func (c *Client) handleFetch(seqNum uint32) error {
 				IsExtended:    attName == "BODYSTRUCTURE",
 			}
 		case "BINARY.SIZE":
+			// isMsgAttNameChar stops at '[': the section-binary starts with it
+			if !dec.ExpectSpecial('[') {
+				return dec.Err()
+			}
 			part, dot := readSectionPart(dec)
 			if dot {
 				return fmt.Errorf("in section-binary: expected number after dot")
